@@ -4,8 +4,8 @@ CONSTANTS
   NamedLo = 3
   DynLo = 5
   WksAddr = 2
-  Names = {"wk", "n1", "n2", "n3"}
-  MaxSock <- Max42n
+  Names = {"wk", "n1", "n2"}
+  MaxSock <- Max41
   KindSeq <- SeqNames
   Roles <- NameOps
   Msgs = {1, 2}
